@@ -216,7 +216,7 @@ def gen_df_phase(r, sh, lines, malformed, nops):
         elif x < 0.92:
             lines.append(r.choice(["dfgetfids", "dfgetfdss"]))
         else:
-            lines.append("dflablist %d %d" % (r.choice([700, 700, 701, 702]), r.choice([2, 3, 5, 16, 17, 64, 400])))
+            lines.append("dflablist %d %d" % (r.choice([700, 700, 701, 702]), r.choice([1, 2, 3, 5, 16, 17, 64, 400])))
 
 
 def gen_history(r, name, malformed=False):
